@@ -2607,6 +2607,13 @@ where
                 kind: InvariantKind::Topology,
                 error: e.into(),
             });
+        } else if let Err(e) = self.validate_at_completion() {
+            // `validate()` also runs the completion-time vertex-link certification
+            // (PLManifold): the report must not be empty when cumulative validation fails.
+            violations.push(InvariantViolation {
+                kind: InvariantKind::Topology,
+                error: e.into(),
+            });
         }
 
         if violations.is_empty() {
